@@ -159,6 +159,7 @@ def _simple_types(rng):
     """list of (feature, type-name, declaration, valid lexicals, invalid lexicals)"""
     lo, hi = rng.randrange(-50, 10), rng.randrange(11, 500)
     ln = rng.randrange(2, 6)
+    fa = 1 + hi % 8
     return [
         ("st-int-range", "tInt", '<xs:simpleType name="tInt"><xs:restriction base="xs:int"><xs:minInclusive value="%d"/><xs:maxExclusive value="%d"/></xs:restriction></xs:simpleType>' % (lo, hi), [str(lo), str(hi - 1), "+7", " 8 "], [str(lo - 1), str(hi), "1.0", "x"]),
         ("st-decimal-digits", "tDec", '<xs:simpleType name="tDec"><xs:restriction base="xs:decimal"><xs:totalDigits value="5"/><xs:fractionDigits value="2"/><xs:minExclusive value="-10.5"/><xs:maxInclusive value="999.99" fixed="true"/></xs:restriction></xs:simpleType>', ["1.25", "-10.49", "999.99", "007"], ["1.255", "-10.5", "1000", "1e2"]),
@@ -175,6 +176,13 @@ def _simple_types(rng):
         ("st-double", "tDbl", '<xs:simpleType name="tDbl"><xs:restriction base="xs:double"><xs:minInclusive value="-1.5E2"/><xs:maxInclusive value="1E3"/><xs:enumeration value="1"/><xs:enumeration value="2.5"/><xs:enumeration value="-INF"/></xs:restriction></xs:simpleType>', ["1.0", "2.5E0", "25e-1"], ["3", "NaN", "-INF", "1,0"]),
         ("st-float", "tFlt", '<xs:simpleType name="tFlt"><xs:restriction base="xs:float"><xs:minExclusive value="0"/><xs:maxExclusive value="INF"/></xs:restriction></xs:simpleType>', ["1", "3.4E38", "1e-40"], ["0", "-1", "INF", "abc"]),
         ("st-gtypes", "tGYM", '<xs:simpleType name="tGYM"><xs:restriction base="xs:gYearMonth"><xs:minInclusive value="2000-01"/></xs:restriction></xs:simpleType>', ["2000-01", "2010-12Z"], ["1999-12", "2010-13", "2010"]),
+        # fractional seconds in facet values (finding F62: XMLDateTime::serialize drops fMilliSecond/fHasTime); the digits
+        # are derived from hi so that no further random numbers are consumed
+        ("st-datetime-frac", "tDTf", '<xs:simpleType name="tDTf"><xs:restriction base="xs:dateTime"><xs:minInclusive value="2010-10-10T10:10:10.%d"/><xs:maxInclusive value="2010-10-10T10:10:10.%d"/></xs:restriction></xs:simpleType>' % (fa, fa + 1),
+         ["2010-10-10T10:10:10.%d5" % fa, "2010-10-10T10:10:10.%d" % fa, "2010-10-10T10:10:10.%d" % (fa + 1)],
+         ["2010-10-10T10:10:10", "2010-10-10T10:10:10.%d9" % (fa - 1), "2010-10-10T10:10:10.%d01" % (fa + 1), "2010-10-10T10:10:11"]),
+        ("st-time-frac", "tTimeF", '<xs:simpleType name="tTimeF"><xs:restriction base="xs:time"><xs:enumeration value="07:08:09.%d25"/><xs:enumeration value="07:08:09"/></xs:restriction></xs:simpleType>' % fa,
+         ["07:08:09.%d25" % fa, "07:08:09", "07:08:09.%d250" % fa], ["07:08:09.%d2" % fa, "07:08:09.5", "07:08:10"]),
         ("st-time", "tTime", '<xs:simpleType name="tTime"><xs:restriction base="xs:time"><xs:maxInclusive value="12:00:00"/></xs:restriction></xs:simpleType>', ["12:00:00", "00:00:00.1"], ["12:00:01", "24:01:00"]),
         ("st-anyuri-qname", "tUri", '<xs:simpleType name="tUri"><xs:restriction base="xs:anyURI"><xs:maxLength value="20"/></xs:restriction></xs:simpleType>', ["http://a/b", "x"], ["http://a/" + "b" * 20]),
         ("st-base64", "tB64", '<xs:simpleType name="tB64"><xs:restriction base="xs:base64Binary"><xs:minLength value="2"/></xs:restriction></xs:simpleType>', ["QUJD", "QUI="], ["QQ==", "@@@@"]),
